@@ -107,6 +107,7 @@ pub fn run_case(toks: &[&str], em: &mut Emitter) {
 }
 
 fn observed(em: &mut Emitter, op: &str, data: &[u8]) {
+    watch_begin(&format!("{} {} obs=E", op, hex(data)));
     crate::alloc_count::reset();
     let d = data.to_vec();
     let r = catch_unwind(AssertUnwindSafe(|| if op == "ts_chal" { cssp::read_ts_server_challenge(&d) } else { cssp::read_ts_validate(&d) }));
@@ -238,6 +239,13 @@ pub fn generate_c07(thorough: bool, seed: u64, part: (usize, usize), em: &mut Em
     let empty_tokens = vec![0x30, 0x09, 0xa0, 0x03, 0x02, 0x01, 0x02, 0xa1, 0x02, 0x30, 0x00];
     observed(em, "ts_chal", &empty_tokens);
     observed(em, "ts_chal", &ts_good); observed(em, "ts_validate", &val_good);
+    // 1..=9 negoTokens in the sequence (the first one is the answer)
+    for n in 1..=9usize {
+        use crate::nlasrv::der;
+        let mut toks = vec![]; for k in 0..n { toks.extend(der(0x30, &der(0xa0, &der(0x04, &[k as u8, 1, 2])))); }
+        let mut body = der(0xa0, &der(0x02, &[2])); body.extend(der(0xa1, &der(0x30, &toks)));
+        observed(em, "ts_chal", &der(0x30, &body));
+    }
     for g in &[ts_good.clone(), val_good.clone(), empty_tokens.clone()] {
         for off in 0..g.len() { for v in fault_vals { let mut b = g.clone(); b[off] = *v; observed(em, "ts_chal", &b); observed(em, "ts_validate", &b); } }
         for cut in 0..g.len() { observed(em, "ts_chal", &g[..cut]); observed(em, "ts_validate", &g[..cut]); }
